@@ -59,6 +59,7 @@ type socket struct {
 
 	flushMu      sync.Mutex
 	flushPending atomic.Bool
+	bufMu        sync.Mutex
 }
 
 func (s *socket) Protocol() int {
@@ -540,12 +541,16 @@ func (s *socket) sendPacket(
 		// exports packetCreate event
 		s.Emit("packetCreate", packet)
 
+		// the packet and its callback must enter their queues together: a flush that
+		// runs in between would put the callback into the group of an earlier batch
+		s.bufMu.Lock()
 		s.writeBuffer.Push(packet)
 
 		// add send callback to object, if defined
 		if callback != nil {
 			s.packetsFn.Push(callback)
 		}
+		s.bufMu.Unlock()
 
 		s.flush()
 	}
@@ -569,11 +574,18 @@ func (s *socket) flush() {
 
 func (s *socket) doFlush() {
 	if s.ReadyState() != "closed" && s.Transport().Writable() {
-		if wbuf := s.writeBuffer.AllAndClear(); len(wbuf) > 0 {
+		s.bufMu.Lock()
+		wbuf := s.writeBuffer.AllAndClear()
+		var packetsFn []SendCallback
+		if len(wbuf) > 0 {
+			packetsFn = s.packetsFn.AllAndClear()
+		}
+		s.bufMu.Unlock()
+		if len(wbuf) > 0 {
 			socket_log.Debug("flushing buffer to transport")
 			s.Emit("flush", wbuf)
 			s.server.Emit("flush", s, wbuf)
-			if packetsFn := s.packetsFn.AllAndClear(); len(packetsFn) > 0 {
+			if len(packetsFn) > 0 {
 				s.sentCallbackFn.Push(packetsFn)
 			} else {
 				s.sentCallbackFn.Push(nil)
